@@ -38,8 +38,16 @@ func zzH_CLI() {
 		// first byte: the issue index (lets the environment see the order on the wire)
 		args[i] = append([]byte{byte(i)}, vBytesN("args", 1)...)
 	}
+	pings := vParam("cli.pings", 0) == 1 && enc == nil
+	if pings {
+		m.autoPing = true // heartbeats are answered at once (a server answers them from its decode worker)
+	}
 	vGo("issuer", func() {
 		for i := 0; i < K; i++ {
+			if pings && i > 0 && vChoose("ping-between", 2) == 1 {
+				// a completed Ping between two calls leaves a hole in the outstanding sequence numbers
+				vAssert(conn.Ping() == nil, "ping-ok")
+			}
 			if vParam("cli.forms", 1) == 2 && vChoose("form", 2) == 1 {
 				calls[i] = conn.RoundTrip(&Call{ServiceMethod: "S.Echo", Args: &args[i], Reply: &replies[i], Done: done})
 			} else {
@@ -177,6 +185,15 @@ func zzH_CLIb() {
 			args = []byte{zzEmptyReplyMarker, byte(i)}
 		} else {
 			args = append([]byte{byte(0x10 + i)}, vBytesN("args", 1+vChoose("len", 2)*2)...)
+			if vParam("clib.big", 0) == 1 && vChoose("big", 2) == 1 {
+				// a reply of several KiB (far beyond the 64-byte connection buffers; sizes from which an
+				// implementation may start to pool reply memory)
+				pad := make([]byte, 4200)
+				for x := range pad {
+					pad[x] = byte(x*7 + i)
+				}
+				args = append(args, pad...)
+			}
 		}
 		var reply []byte
 		var err error
@@ -269,13 +286,29 @@ func zzH_CLIm() {
 	if pairs {
 		// concurrent pairs are explored behind three fixed preludes only (schedule space)
 		K = 1
-		switch vChoose("prelude", 3) {
+		switch vChoose("prelude", 4) {
 		case 1:
 			s, err := conn.NewStream("S.Watch")
 			vAssert(err == nil && s != nil, "stream-open-ok")
 			vAssert(s.Close() == nil, "stream-close-ok")
 		case 2:
 			badOpen()
+		case 3:
+			// a call whose request is written and answered, and whose write is then reported as failed:
+			// it ends once, with its reply or with the write error
+			first := m.nWrites
+			m.lateWriteErr = func(n int) error {
+				if n == first {
+					return errZZWrite
+				}
+				return nil
+			}
+			nCall++
+			args := []byte{0x5f, 0x01}
+			var reply []byte
+			err := conn.Call("S.Echo", &args, &reply)
+			vAssert(err == errZZWrite || (err == nil && vEqBytes(reply, zzReplyFor(args))), "late-write-error-ends-call-once")
+			vQuiesce()
 		}
 	}
 	for i := 0; i < K; i++ {
@@ -297,6 +330,11 @@ func zzH_CLIm() {
 			st = s
 		case 3:
 			badOpen()
+			if st == nil {
+				// nothing is outstanding on the connection: a refused open leaves nothing behind (a
+				// connection that still counts as busy is never reclaimed by a pool)
+				vAssert(conn.NumCalls() == 0, "refused-stream-open-leaves-no-residue")
+			}
 		case 4:
 			vAssume(st != nil)
 			vAssert(st.Close() == nil, "stream-close-ok")
